@@ -106,6 +106,39 @@ chk('C18',
     'Trusted: the equality comparison of recorded events. Memory faults during a sequence abandon it (C02/C04 judge them).',
     'sanitizer build + differential monitor (reused vs fresh analyser, process with vs without history)', 'DESIGN.md 4 C18')
 
+chk('C07',
+    'Runtime monitoring of edit histories with a differential oracle: after every operation of a seeded RSForm history the '
+    'live schema is compared, constituent by constituent, with a schema freshly loaded from its minimal JSON (status, '
+    'typification, arguments, value class, syntax tree, dependency edges, and resolved texts when term references are '
+    'acyclic). Deterministic identifiers through the CCL_VERIF hook make histories replayable.',
+    'Trusted: the from-scratch analysis of the real code is the reference; AST strings ignore positions.',
+    'sanitizer build + differential monitor (incremental vs from-scratch) over operation histories', 'DESIGN.md 4 C07')
+
+chk('C09',
+    'Runtime monitoring with structural-invariant monitors evaluated after every public call of collision-heavy RSForm '
+    'histories: unique uids, unique well-formed aliases matching their kind, list = ordered permutation (base < constant < '
+    'structure < derived), agreement of all views, erased constituents gone everywhere, refused calls leave the snapshot '
+    'unchanged, tracked constituents refuse Erase/SetExpressionFor.',
+    'Trusted: the snapshot read through the public API. SetExpressionFor returning false may store a text with an '
+    'identical syntax tree (documented minor change).',
+    'sanitizer build + invariant monitor at quiescent points of operation histories', 'DESIGN.md 4 C09')
+
+chk('C10',
+    'Runtime monitoring with a round-trip oracle: RSForm and RSModel objects reached by seeded histories are saved, loaded '
+    'and saved again by the real JSON code; documents must be equal as JSON values (incl. embedded parse blocks) and the '
+    'snapshots of the original and of the loaded object must agree on all listed content (for models also interpretation '
+    'data and calculated flags).',
+    'Trusted: JSON value comparison. Resolved texts of terms on a reference cycle are not compared. Two recorded findings '
+    '(known_findings.json).',
+    'sanitizer build + save/load round-trip monitor over histories', 'DESIGN.md 4 C10')
+
+chk('C11',
+    'Runtime monitoring of RSModel histories with a differential oracle: after every operation the live model is compared '
+    'with a reconstruction from the current base data and definitions followed by RecalculateAll; every value reported as '
+    'calculated must equal the reconstructed value and structure data must be valid for the current base interpretation.',
+    'Trusted: the reconstruction (real code from scratch) and the canonical value comparison in Python.',
+    'sanitizer build + differential monitor (stored value vs full recalculation) over operation histories', 'DESIGN.md 4 C11')
+
 for _p in ['C01', 'C02', 'C03', 'C04', 'C05', 'C06', 'C07', 'C08', 'C09', 'C10', 'C11', 'C12', 'C13', 'C15', 'C16',
            'C17', 'C18', 'C19']:
     if _p not in CHECKS:
